@@ -307,6 +307,8 @@ Record cfg := mkcfg {
 }.
 Definition shipped (R : nat) : cfg := mkcfg rcn_shipped false false R.
 Definition fixed (R : nat) : cfg := mkcfg rcn_fixed true true R.
+(** the lookup and the scheduler repaired, record_call_node as shipped *)
+Definition mixed (R : nat) : cfg := mkcfg rcn_shipped true true R.
 
 Definition current (own : bool) (d : db) (rg : list nat) (c : tree) : bool :=
   subset (rows d c) rg && (if own then memn (t_task c) (rows d c) else true).
@@ -346,16 +348,20 @@ Definition hit_subtree (g : cfg) (cse full : bool) (s : state) (c : tree) : list
   if c_hit_backend g then t_task c :: from_backend
   else if cse && full then [t_task c] else from_backend.
 
+(** owned Value records (result, task, arguments) are transferred whether or not the CallNode
+    record itself is new ([has_records] filters per record id) *)
+Definition import_vals (s : state) (c : tree) : state :=
+  fold_left (fun s v => if memn v (vals (vis s)) then s else add_val v s) (t_res c :: t_task c :: t_args c) s.
+
 Definition import_one (s : state) (c : tree) : state :=
-  if memt c (nodes (vis s)) then s
+  if memt c (nodes (vis s)) then import_vals s c
   else
     let s1 := add_node c s in
     let s2 := add_edges ((fix go (i : nat) (ks : list tree) :=
                             match ks with [] => [] | k :: ks' => (c, k, i) :: go (S i) ks' end) 0 (t_kids c)) s1 in
     let s3 := (fix go (i : nat) (vs : list nat) (s : state) :=
                  match vs with [] => s | v :: vs' => go (S i) vs' (add_arg c i v s) end) 0 (t_args c) s2 in
-    (* owned records: result value, task value, argument values *)
-    fold_left (fun s v => if memn v (vals (vis s)) then s else add_val v s) (t_res c :: t_task c :: t_args c) s3.
+    import_vals s3 c.
 
 Definition step_event (g : cfg) (s : state) (e : event) : state :=
   match e with
